@@ -1,5 +1,5 @@
 #![allow(dead_code)]
-mod vocab; mod tree; mod val; mod call; mod render; mod refsem; mod expect; mod engine; mod meta; mod agg; mod loops;
+mod vocab; mod tree; mod val; mod call; mod render; mod refsem; mod expect; mod engine; mod meta; mod agg; mod loops; mod history;
 
 use engine::*;
 use serde_json::{json, Value};
@@ -191,6 +191,12 @@ fn main() {
             "replay" => run_replay(&job),
             "selftest" => run_selftest(&job),
             "agg" => run_agg(&job),
+            "history" => {
+                let mut out = open_out(&job, profile_name());
+                history::run(&mut out, job["seed"].as_u64().unwrap_or(1), job["n_seq"].as_u64().unwrap_or(1000) as usize, job["n_par"].as_u64().unwrap_or(1600) as usize, job["threads"].as_u64().unwrap_or(16) as usize);
+                out.heartbeat(u64::MAX);
+                write_stats(&job, &mut out, true);
+            }
             "loops" => {
                 let v = vocab::Vocab::load(job["vocab"].as_str().unwrap());
                 let mut out = open_out(&job, profile_name());
@@ -200,6 +206,8 @@ fn main() {
             }
             m => { eprintln!("unknown mode {}", m); std::process::exit(2); }
         }
+    } else if args.len() >= 3 && args[1] == "iso" {
+        println!("{}", history::isolated_canon(args[2].parse().unwrap()));
     } else if args.len() >= 4 && args[1] == "one" {
         // sc_harness one <evaluator> <expr> [placeholder canon]  -- replay of a single call
         let e = &args[2];
